@@ -89,6 +89,12 @@ var c16Contexts = []ctxTemplate{
 	{"or-chain-head-150", "SELECT a FROM t WHERE ({C})" + strings.Repeat(" OR b = 2", 150)},
 	{"and-chain-middle-300", "SELECT a FROM t WHERE c = 1" + strings.Repeat(" AND b = 2", 150) + " AND ({C})" + strings.Repeat(" AND b = 2", 150)},
 	{"deep-nesting", "SELECT a FROM t WHERE a IN (SELECT b FROM (SELECT b FROM u WHERE EXISTS (SELECT 1 FROM v WHERE {C})) z)"},
+	// the same payload at two places of one statement: two findings, counted twice
+	{"twice-and", "SELECT a FROM t WHERE ({C}) AND d = 5 AND ({C})"},
+	{"twice-union-arms", "SELECT a FROM t WHERE {C} UNION SELECT a FROM u WHERE {C}"},
+	{"twice-outer-and-subquery", "SELECT a FROM t WHERE ({C}) AND a IN (SELECT b FROM u WHERE {C})"},
+	{"twice-two-statements", "SELECT a FROM t WHERE {C}; DELETE FROM u WHERE {C}"},
+	{"twice-select-list-and-having", "SELECT ({C}) FROM t GROUP BY a HAVING {C}"},
 }
 
 func findingsKey(r *security.ScanResult) []string {
@@ -200,16 +206,20 @@ func runC16(c *runCtx) {
 	for _, p := range c16Payloads {
 		for _, ctx := range c16Contexts {
 			sql := strings.ReplaceAll(ctx.sql, "{C}", p.cond)
+			want := p.want
+			if strings.HasPrefix(ctx.name, "twice-") {
+				want = append(append([]string{}, p.want...), p.want...)
+			}
 			for li, lay := range layouts(c.rng, sql) {
 				if c.quick && li > 1 && (n%3 != 0) {
 					n++
 					continue
 				}
 				n++
-				check(lay, p.want, true, ctx.name, n < 3)
+				check(lay, want, true, ctx.name, n < 3)
 			}
 			// redundant parentheses around the payload
-			check(strings.ReplaceAll(ctx.sql, "{C}", "(("+p.cond+"))"), p.want, true, ctx.name, false)
+			check(strings.ReplaceAll(ctx.sql, "{C}", "(("+p.cond+"))"), want, true, ctx.name, false)
 		}
 	}
 	// every context with a benign condition: no finding at all (no false positives from the context itself)
